@@ -13,14 +13,14 @@ import (
 type resKind int
 
 const (
-	rFresh  resKind = iota
-	rAlias          // all tokens of operand src
-	rView           // data tokens of operand src (fresh header)
-	rShape          // live header storage of operand src
-	rData           // live data storage of operand src
-	rNewOpt         // tensor.New: data from WithBacking options
-	rOptWrap        // option constructor: wraps operand tokens as OPT:<kind>
-	rAliasOrFresh   // may return the operand itself (Concat of one, Materialize of a non-view)
+	rFresh        resKind = iota
+	rAlias                // all tokens of operand src
+	rView                 // data tokens of operand src (fresh header)
+	rShape                // live header storage of operand src
+	rData                 // live data storage of operand src
+	rNewOpt               // tensor.New: data from WithBacking options
+	rOptWrap              // option constructor: wraps operand tokens as OPT:<kind>
+	rAliasOrFresh         // may return the operand itself (Concat of one, Materialize of a non-view)
 )
 
 type resSpec struct {
@@ -30,11 +30,11 @@ type resSpec struct {
 }
 
 type contract struct {
-	mutH    []int // operands whose header is written
-	mutD    []int // operands whose data is written
-	mutC    []int // operands whose container/message structure is written
-	res     []resSpec
-	opts    bool // accepts gorgonia FuncOpts: WithReuse/UseUnsafe/WithIncr are honoured
+	mutH         []int // operands whose header is written
+	mutD         []int // operands whose data is written
+	mutC         []int // operands whose container/message structure is written
+	res          []resSpec
+	opts         bool // accepts gorgonia FuncOpts: WithReuse/UseUnsafe/WithIncr are honoured
 	mutHDvarargs bool // the trailing variadic int slice is sorted in place (reductions)
 }
 
